@@ -318,6 +318,7 @@ func TestVerif_C10(t *testing.T) {
 			"transitions = probe interface names executed through the rendered dispatch chains / verdict maps by nfsim (both directions); " +
 			"workload names: pool A = cali+{a,b}^0..3 plus tapa,tapab; pool B = tap, tap{_ . - : @}{a,b}, cali1, cali2, cali10, cali20 (punctuation / mixed-length digits right after the common prefix); every subset of each pool up to the bound plus each subset with one endpoint duplicated; " +
 			"host names: every subset of {eth0,eth1,eth,e} and every subset (<=4 quick, <=5 thorough) of {br@1,br@2,br:1,br:2,br_1,br_2,br.1,br1,br10} x wildcard x {normal, apply-on-forward, from-only, to-only}; non-trivial = layouts with >= 2 names sharing a prefix")
+		c.Assume("history mode drives the real nftables table the way the endpoint manager does (endpoint chains removed/added, dispatch chains updated, both verdict maps replaced, one Apply per step) on sigs.k8s.io/knftables' Fake; the fake's transaction semantics are trusted")
 		c.Assume("per-endpoint chains are leaves (reaching one ends the evaluation); IPv4 rendering only: dispatch chains do not depend on the IP version")
 		c.Assume("for interfaces that match no workload prefix the workload dispatch chains' behaviour is not constrained by the statement (they are only entered for workload-prefixed interfaces); " +
 			"egress towards a workload interface through the host dispatch chains with a wildcard HEP is accepted either way")
@@ -341,7 +342,39 @@ func TestVerif_C10(t *testing.T) {
 		wlProbes := c10UniqStr(append(append([]string{}, wlPools[0].probes...), wlPools[1].probes...))
 		hostProbes := c10UniqStr(append(append([]string{}, hostPools[0].probes...), hostPools[1].probes...))
 
+		var freshMu sync.Mutex
+		freshCache := map[string]*c10Programmed{}
+		fresh := func(names []string) (*c10Programmed, error) {
+			k := strings.Join(names, ",")
+			freshMu.Lock()
+			defer freshMu.Unlock()
+			if p := freshCache[k]; p != nil {
+				return p, nil
+			}
+			var p *c10Programmed
+			err := vk.Catch(func() error {
+				in := c10NewInst()
+				in.step(names)
+				var e error
+				p, e = in.programmed()
+				return e
+			})
+			if err == nil {
+				freshCache[k] = p
+			}
+			return p, err
+		}
+
 		if rf := c.ReplayFile(); rf != "" {
+			var hd c10HistDetail
+			if err := vk.LoadReplay(rf, &hd); err == nil && len(hd.History) > 0 {
+				var st c10Stats
+				c10RunHistory(c, hd.History, fresh, &st)
+				c.Add("states", st.layouts)
+				c.Add("transitions", st.evals)
+				c.Sample(hd.History)
+				return
+			}
 			var d c10Detail
 			if err := vk.LoadReplay(rf, &d); err != nil {
 				c.ToolError("replay: " + err.Error())
@@ -398,6 +431,19 @@ func TestVerif_C10(t *testing.T) {
 				}
 			}
 		}
+		// nft short-history mode: one real stateful table instance per history
+		histLen := c.Pick(3, 4)
+		hists := c10Histories(histLen)
+		for _, h := range hists {
+			h := h
+			jobs = append(jobs, func(st *c10Stats) bool { return c10RunHistory(c, h, fresh, st) })
+			if len(h) >= 2 {
+				c.Nontrivial("hist|" + vk.JSON(h))
+			}
+		}
+		c.Extra("nft_histories", len(hists))
+		c.Extra("nft_history_max_len", histLen)
+		c.Sample(map[string]any{"kind": "nft", "what": "history", "history": [][]string{{"cali1", "calia"}, {}, {"cali1"}}, "probes": c10HistProbes})
 		c.Sample(map[string]any{"kind": "ipt", "what": "workload", "names": []string{"cali", "calia", "caliab", "tapa"}, "probes": wlProbes})
 		c.Sample(map[string]any{"kind": "nft", "what": "host-forward", "names": []string{"e", "eth", "eth0"}, "wildcard": true, "probes": hostProbes})
 
